@@ -80,6 +80,13 @@ check("C13",
   "Payout multiplier > 1 is unobservable on the pinned tree (blocks with a treasury payout never validate: C07 known finding). No forks inside these histories (C02/C03 trees cross the window edge with forks).",
   "DESIGN.md §3 C13")
 
+check("C14",
+  "explicit-state breadth-first search over operation sequences on the real pool and chain, state = history, digest deduplication, invariants and a destructive probe in every state",
+  "model_checking",
+  "From a 3-block chain, all sequences to depth 4 (quick) / 6 (thorough) over a 12-symbol alphabet: submit A (spends u1, routed with fee), submit a conflicting A', submit B spending u1+u2 in both input orders, submit independent C, peer block confirming A, peer block spending u1 by an unknown transaction, empty peer block, bundle with enough / not enough elapsed time, own block that fails validation (transactions put back), two-block side chain that un-confirms the tip. States are deduplicated by the digest of the full observable state (chain, utxo, pool transactions, reservation index, cached work, queued blocks). In every state: no two pooled transactions share a value-carrying input; every pooled transaction validates against the ledger; cached routing work = sum over pooled transactions; every unspent in-window output of the two payers that no pooled transaction spends admits a fresh spend (probe); bundling yields a valid block and removes exactly the bundled transactions, or leaves the pool unchanged.",
+  "Two payers, three tracked outputs; the probe mutates the pool, so each state is rebuilt from its history before expansion (replay determinism is covered by the digest).",
+  "DESIGN.md §3 C14")
+
 NOT_YET = "check not built yet in this session (work in progress, see DESIGN.md §8 build order); nothing is claimed for it"
 NA = {}
 
